@@ -14,6 +14,9 @@ git -C "$WT" apply "$S/patch.diff" || { echo "NOT-CONFIRMED: patch does not appl
 ( cd "$WT" && GODEBUG=goindex=0 go build -overlay /verif/work/overlay0.json ./... ) || { echo "NOT-CONFIRMED: does not build"; exit 1; }
 ( cd "$WT" && go test -vet=off -count=1 -timeout 10m ./... 2>&1 | grep -E '^(ok|FAIL|---)' | sed 's/\t[0-9.]*s$//; s/(cached)//' | sort > ../$(basename $WT).mut.txt )
 ( cd "$WT" && bash "$S/demo.sh" "$WT" ) > "$WT/../$(basename $WT).mut.log" 2>&1; M=$?
+# some demo scripts pipe `go test` through grep and lose its exit status: look at the output too
+grep -qE '^(--- FAIL|FAIL|panic:)' "$WT/../$(basename $WT).head.log" && H=1
+grep -qE '^(--- FAIL|FAIL|panic:)|fatal error:' "$WT/../$(basename $WT).mut.log" && M=1
 D=$(diff "$WT/../$(basename $WT).base.txt" "$WT/../$(basename $WT).mut.txt")
 rm -f "$WT/../$(basename $WT)".*
 if [ $H -eq 0 ] && [ $M -ne 0 ] && [ -z "$D" ]; then echo "CONFIRMED demo_head=$H demo_mut=$M baseline_unchanged"; exit 0; fi
